@@ -31,15 +31,22 @@ type bufBusSys struct {
 	in         []stamped
 	addedAt    map[int]int
 	delivered  map[int]bool
+	lastTaken  *busItem     // item the consumer took in this cycle and may still hand back
+	reverted   map[int]bool // items handed back and not yet delivered again
 }
 
 func newBufBusSys(qLen, bLen int) *bufBusSys {
-	return &bufBusSys{impl: comp.NewBufferedBus[busItem](qLen, bLen), qLen: qLen, bLen: bLen, addedAt: map[int]int{}, delivered: map[int]bool{}}
+	return &bufBusSys{impl: comp.NewBufferedBus[busItem](qLen, bLen), qLen: qLen, bLen: bLen, addedAt: map[int]int{}, delivered: map[int]bool{}, reverted: map[int]bool{}}
 }
 
 func (s *bufBusSys) Ops() []sxOp {
 	ops := []sxOp{{"Connect", nil}, {"NextCycle", nil}, {"Get", nil}, {"Pick", []int{1}}, {"Pick", []int{0}},
 		{"GetRevert", nil}, {"PickRevert", []int{1}}, {"DeleteLast", nil}, {"Clean", nil}}
+	if s.lastTaken != nil {
+		// the consumer hands back what it took earlier in this cycle (other operations, e.g. a
+		// Connect that refills the queue, may have happened in between)
+		ops = append(ops, sxOp{"RevertLastTaken", nil})
+	}
 	if len(s.in) < s.bLen { // producers add only while the bus reports room
 		ops = append(ops, sxOp{"Add", []int{0}}, sxOp{"Add", []int{1}})
 	}
@@ -60,7 +67,29 @@ func (s *bufBusSys) take(it busItem, ok bool, wantIt busItem, wantOK bool, what 
 			return fmt.Sprintf("%s delivered %v a second time", what, it)
 		}
 		s.delivered[it.ID] = true
+		delete(s.reverted, it.ID)
+		cp := it
+		s.lastTaken = &cp
 	}
+	return ""
+}
+
+// revert hands item it back; the statement fixes the delivery order, not where the item waits: accept
+// the head of the output queue, or the head of the input buffer when nothing is queued in front of it.
+func (s *bufBusSys) revert(it busItem) string {
+	s.impl.Revert(it, s.now)
+	delete(s.delivered, it.ID)
+	s.lastTaken = nil
+	q, b, _ := s.impl.VerifState()
+	switch {
+	case len(q) > 0 && q[0] == it:
+		s.out = append([]busItem{it}, s.out...)
+	case len(q) == 0 && len(s.out) == 0 && len(b) > 0 && b[0] == it:
+		s.in = append([]stamped{{it, s.now}}, s.in...)
+	default:
+		return fmt.Sprintf("reverted item %v is not the next one delivered: output queue %v, input buffer %v", it, q, b)
+	}
+	s.reverted[it.ID] = true
 	return ""
 }
 
@@ -93,6 +122,7 @@ func (s *bufBusSys) Apply(op sxOp) string {
 		}
 	case "NextCycle":
 		s.now++
+		s.lastTaken = nil // a new cycle: the consumer no longer holds the item
 	case "Get":
 		it, ok := s.impl.Get()
 		var w busItem
@@ -132,21 +162,14 @@ func (s *bufBusSys) Apply(op sxOp) string {
 			return m
 		}
 		if ok {
-			// the consumer hands the item back in the same cycle: it must be the next one delivered
-			s.impl.Revert(it, s.now)
-			delete(s.delivered, it.ID)
-			// The statement fixes the delivery order, not where the item waits:
-			// accept the head of the output queue, or the head of the input
-			// buffer when nothing is queued in front of it.
-			q, b, _ := s.impl.VerifState()
-			switch {
-			case len(q) > 0 && q[0] == it:
-				s.out = append([]busItem{it}, s.out...)
-			case len(q) == 0 && len(s.out) == 0 && len(b) > 0 && b[0] == it:
-				s.in = append([]stamped{{it, s.now}}, s.in...)
-			default:
-				return fmt.Sprintf("reverted item %v is not the next one delivered: output queue %v, input buffer %v", it, q, b)
+			// the consumer hands the item back straight away: it must be the next one delivered
+			if m := s.revert(it); m != "" {
+				return m
 			}
+		}
+	case "RevertLastTaken":
+		if m := s.revert(*s.lastTaken); m != "" {
+			return m
 		}
 	case "DeleteLast":
 		s.impl.DeleteLast()
@@ -156,6 +179,7 @@ func (s *bufBusSys) Apply(op sxOp) string {
 	case "Clean":
 		s.impl.Clean()
 		s.in, s.out = nil, nil
+		s.lastTaken = nil
 		if !s.impl.IsEmpty() {
 			return "Clean left items on the bus"
 		}
@@ -181,7 +205,19 @@ func (s *bufBusSys) compare() string {
 			return fmt.Sprintf("input buffer %v avail %v at cycle %d, model %v", b, av, s.now, s.in)
 		}
 	}
-	if len(q) > s.qLen || len(b) > s.bLen {
+	// producers' adds never exceed the capacities; an item the consumer handed back is not a producer's add
+	extraQ, extraB := 0, 0
+	for _, it := range q {
+		if s.reverted[it.ID] {
+			extraQ++
+		}
+	}
+	for _, it := range b {
+		if s.reverted[it.ID] {
+			extraB++
+		}
+	}
+	if len(q) > s.qLen+extraQ || len(b) > s.bLen+extraB {
 		return fmt.Sprintf("occupancy %d/%d exceeds capacities %d/%d", len(q), len(b), s.qLen, s.bLen)
 	}
 	if s.impl.PendingRead() != len(s.out) || s.impl.CanGet() != (len(s.out) > 0) ||
@@ -204,8 +240,14 @@ func (s *bufBusSys) compare() string {
 
 func (s *bufBusSys) Canon() string {
 	out := "q:"
+	if s.lastTaken != nil {
+		out = fmt.Sprintf("taken%d q:", s.lastTaken.Tag)
+	}
 	for _, it := range s.out {
 		out += fmt.Sprint(it.Tag)
+		if s.reverted[it.ID] {
+			out += "r"
+		}
 	}
 	out += " b:"
 	for _, e := range s.in {
@@ -214,6 +256,9 @@ func (s *bufBusSys) Canon() string {
 			r = 1
 		}
 		out += fmt.Sprintf("%d@%d,", e.it.Tag, r)
+		if s.reverted[e.it.ID] {
+			out += "r,"
+		}
 	}
 	return out
 }
@@ -502,9 +547,9 @@ func init() {
 	register("C14", &Check{
 		Shards: func(tier string) int { return len(c14Specs(tier)) },
 		Run: func(c *RunCtx) {
-			c.Sum.Rule = "SX: BFS to fix-point over BufferedBus (Add iff CanAdd, Connect, next cycle, Get, Pick x2 predicates, Get/Pick+Revert, DeleteLast, Clean; capacities 1..4 x 1..4), SimpleBus, Queue (push, iterate-and-remove every subset, abandon after removal), Broadcast (notify, read+commit every subset); FIFO-with-stamps model; items are fresh ids with a 1-bit tag; canonical state = tags and relative stamps; non-trivial = distinct canonical states other than the initial one"
+			c.Sum.Rule = "SX: BFS to fix-point over BufferedBus (Add iff CanAdd, Connect, next cycle, Get, Pick x2 predicates, Get/Pick+Revert, Revert of the item taken earlier in the cycle, DeleteLast, Clean; capacities 1..4 x 1..4), SimpleBus, Queue (push, iterate-and-remove every subset, abandon after removal), Broadcast (notify, read+commit every subset); FIFO-with-stamps model; items are fresh ids with a 1-bit tag; canonical state = tags and relative stamps; non-trivial = distinct canonical states other than the initial one"
 			sxRun(c, c14Specs(c.Tier))
-			c.Assume("Revert is exercised in its only meaningful shape: the consumer hands back the item it has just taken, in the same cycle")
+			c.Assume("Revert hands back the item the consumer took earlier in the same cycle (immediately, or after other operations such as a Connect that refills the queue); an item handed back is not a producer's add, so it may make the queue exceed its capacity by one")
 			c.Assume("producers call Add only while CanAdd() (BufferedBus) / no pending item (SimpleBus)")
 			c.Assume("Queue iteration runs under the Go scheduler here; its interleavings are explored by C08")
 		},
